@@ -212,13 +212,9 @@ def r1(prog, rep):
     rep.ob("R1", "getRefined passes every point (first, interior, last) through refinePoint", ok, gr.site(), detail, key="typestate/getRefined")
     refine_point_exits(prog, rep)
     names = ["MeshRegion.__init__", "MeshRegion.addPointAtWallToContours", "MeshRegion.distributePointsNonorthogonal"]
-    summaries = {"self.addPointAtWallToContours": True, "self.distributePointsNonorthogonal": True}
-    clean_sites = 0
-    for qn in names:
-        f = prog.func(MESH, qn)
-        sites = []
 
-        def transfer(s, facts, f=f, sites=sites):
+    def flow(f, summaries, sites):
+        def transfer(s, facts):
             # calls anywhere in the statement
             for c in [n for n in ast.walk(s) if isinstance(n, ast.Call)]:
                 d = dotted(c.func)
@@ -245,11 +241,41 @@ def r1(prog, rep):
 
         exits = []
         MustFlow(transfer, on_return=lambda node, facts: exits.append((node, facts))).run(f.node, frozenset())
+        return exits
+
+    # which methods of the region leave the contours refined at every normal exit: least fixed
+    # point over the region's own methods (a helper extracted from the constructor is found here)
+    region_methods = [g for q, g in mod.funcs.items() if q.startswith("MeshRegion.") and q.count(".") == 1
+                      and any(isinstance(x, ast.Attribute) and x.attr in ("contours", "parallel_map") for x in ast.walk(g.node))]
+    summaries = {}
+    changed = True
+    while changed:
+        changed = False
+        for g in region_methods:
+            key_ = "self." + g.name
+            if key_ in summaries or g.name == "__init__":
+                continue
+            st = []
+            ex_ = flow(g, summaries, st)
+            if ex_ and st and all("refined" in facts for node, facts in ex_):
+                summaries[key_] = True
+                changed = True
+    rep.analysed_add("methods that leave the contours refined", sorted(summaries))
+    clean_sites = 0
+    direct = set()
+    for g in region_methods:
+        st = []
+        flow(g, summaries, st)
+        direct |= {(g.qualname, ln) for what, ln in st if not what.startswith("callee")}
+    clean_sites = len(direct)
+    for qn in names:
+        f = prog.func(MESH, qn)
+        sites = []
+        exits = flow(f, summaries, sites)
         for node, facts in exits:
             rep.ob("R1", "%s: contours are refined at %s" % (qn, "the end of the method" if node is None else "return at line %d" % node.lineno), "refined" in facts, f.site(node) if node else f.site(),
                    "refining sites seen: %s" % sites, key="typestate/%s/%s" % (qn, "end" if node is None else "return"))
-        clean_sites += len([s for s in sites if not s[0].startswith("callee")])
-    rep.floor("R1.refining-sites", clean_sites, 3)
+    rep.floor("R1.refining-sites", clean_sites, 2)
     # the constructor calls both non-orthogonal steps only after its own refinement
     # (covered by the flow); Mesh.redistributePoints goes through distributePointsNonorthogonal
     rp = prog.func(MESH, "Mesh.redistributePoints")
